@@ -34,6 +34,7 @@ class Resolver:
         self._attr_types: dict[str, dict[str, ClassInfo]] = {}
         self._method_index_cache: dict[str, list[FunctionInfo]] | None = None
         self.stats = {"calls": 0, "resolved": 0, "heuristic": 0}
+        self._scope_cache: dict[tuple[str, int], tuple] = {}
         self._tip: set[tuple[str, int]] = set()
         self._type_cache: dict[tuple[str, int], ClassInfo | None] = {}
 
@@ -292,19 +293,29 @@ class Resolver:
             return []
         return []
 
+    def _scope_facts(self, fi: FunctionInfo) -> tuple[set[str], dict[str, list[ast.expr]]]:
+        """(names bound in fi, name -> values of simple `name = <Name|Attribute>` assignments), computed once."""
+        key = (fi.fq, id(fi.node))
+        ent = self._scope_cache.get(key)
+        if ent is None or ent[0] is not fi.node:
+            a = fi.node.args
+            bound = {p.arg for p in [*a.posonlyargs, *a.args, *a.kwonlyargs]}
+            aliases: dict[str, list[ast.expr]] = {}
+            for n in walk_scope(fi.node):
+                if isinstance(n, ast.Name) and isinstance(n.ctx, ast.Store):
+                    bound.add(n.id)
+                if isinstance(n, ast.Assign) and len(n.targets) == 1 and isinstance(n.targets[0], ast.Name) and isinstance(n.value, (ast.Attribute, ast.Name)):
+                    aliases.setdefault(n.targets[0].id, []).append(n.value)
+            ent = (fi.node, bound, aliases)
+            self._scope_cache[key] = ent
+        return ent[1], ent[2]
+
     def _is_local(self, fi: FunctionInfo, name: str) -> bool:
-        a = fi.node.args
-        if name in {p.arg for p in [*a.posonlyargs, *a.args, *a.kwonlyargs]}:
-            return True
-        for n in walk_scope(fi.node):
-            if isinstance(n, ast.Name) and n.id == name and isinstance(n.ctx, ast.Store):
-                return True
-        return False
+        return name in self._scope_facts(fi)[0]
 
     def _local_alias(self, fi: FunctionInfo, name: str) -> list[FunctionInfo] | None:
-        for n in walk_scope(fi.node):
-            if isinstance(n, ast.Assign) and len(n.targets) == 1 and isinstance(n.targets[0], ast.Name) and n.targets[0].id == name:
-                v = n.value
+        for v in self._scope_facts(fi)[1].get(name, []):
+            if True:
                 if isinstance(v, ast.Attribute) or isinstance(v, ast.Name):
                     fake = ast.Call(func=v, args=[], keywords=[])
                     if isinstance(v, ast.Name) and v.id == name:
